@@ -165,6 +165,18 @@ class PreAggregationMatcher:
 
         columns = set()
         for filter_expr in filters:
+            # Every column the expression references, whatever the predicate form
+            # (IN, BETWEEN, LIKE, IS NULL, function calls, ...)
+            try:
+                import sqlglot
+                from sqlglot import exp
+
+                parsed = sqlglot.parse_one(filter_expr)
+                columns.update(col.name for col in parsed.find_all(exp.Column))
+                continue
+            except Exception:
+                pass
+
             # Remove model prefix if present (e.g., "orders.status" -> "status")
             # Simple regex to extract column names before operators
             # This handles: column = value, column >= value, etc.
